@@ -321,6 +321,7 @@ func checkC16(c *Ctx) {
 	r.Rule("C16.g", "a recursive pass never applies the recursion twice to the same child on one path (time would be exponential in the nesting depth)", 100)
 	r.Rule("C16.h", "a String/Error/GoString/Format method never hands its own receiver to a formatter (fmt would call it again: stack overflow, no diagnostic)", 40)
 	checkFormattingMethodsDoNotReenter(c, "C16.h")
+	r.Rule("C16.r", "every function of fc that can reach itself is in the reviewed inventory of recursive functions, each with a termination argument on record (consumes input, strict sub-term, guarded unfolding, explicit bound); a newly recursive function is undecided", 30)
 	r.Rule("C16.e1", "visited-set consistency: if one name-unfolding arm of a traversal is guarded by the visited set, all are", 2)
 	r.Rule("C16.e2", "resolver unfolding is guarded by a depth counter (compared with a constant before a no-return call, incremented in the knot)", 1)
 
@@ -461,6 +462,7 @@ func checkDiagnostics(c *Ctx, f *FC) {
 		r.Undecided("C16.c", "transpileOne", "definition", "fc", "anchor function not found")
 	}
 	checkNoDuplicateRecursion(c, f)
+	checkRecursionInventory(c, f, "C16.r")
 	checkOnParseErrorForm(c, f, "C16.c")
 	// every command-line argument reaches transpileFiles: none is dropped, expanded or reordered before it is read (a missing file must end in a diagnostic)
 	c.expectNF(f, "C16.a", "main", []string{"seq[if(slice.IsEmpty(slice.Tail(sys.Args())), seq[printUsage()], seq[transpileFiles(slice.Tail(sys.Args()))])]"},
